@@ -20,6 +20,13 @@
       from index 0 again, so "a-b" yields {a,a}).
   The round model takes the behaviour as a parameter (`Mode`); the harness
   probes the linked code once and tells the driver which one it is looking at.
+
+  Three further repairs of makeTaskForMesosResources (notes/C05.fix-3/4/5.patch)
+  are described by `Cfg`: `codeCfg` is the code as it is (an empty list after
+  `Remove` gives nil instead of `Min()` of nothing; the static ranges are taken
+  out of what remains of the offer before any port is drawn; CPU and memory of a
+  launched task are taken out too), `legacyCfg` the code as it was. `Mode.cfg` is
+  NOT probed: it is tied to the source by `C05_bookkeeping_is_code`.
 -/
 import ControlModel.Basic
 
@@ -83,10 +90,28 @@ def satLoop (as : Attrs) : Bool → Constraints → Bool
 def satisfyAsCoded (as : Attrs) (cts : Constraints) : Bool :=
   cts.isEmpty || satLoop as false cts
 
-/-- Which of the two behaviours the linked code shows. -/
+/-- Resource bookkeeping of makeTaskForMesosResources. -/
+structure Cfg where
+  /-- an empty list after `availPorts.Remove(…)` makes the function return nil (else: `Min()` panics) -/
+  drawChecked : Bool
+  /-- the static ranges are subtracted from what remains of the offer before the first draw -/
+  staticReserved : Bool
+  /-- cpus and mem of the task are subtracted from what remains of the offer -/
+  scalarsSubtracted : Bool
+  deriving DecidableEq, Repr, Inhabited
+
+/-- The code as it is (with notes/C05.fix-3, fix-4, fix-5). -/
+def codeCfg : Cfg := { drawChecked := true, staticReserved := true, scalarsSubtracted := true }
+
+/-- The code as it was before those three repairs. -/
+def legacyCfg : Cfg := { drawChecked := false, staticReserved := false, scalarsSubtracted := false }
+
+/-- Which of the two behaviours the linked Satisfy / RangesFromExpression show
+    (probed), and the bookkeeping configuration (tied to the source). -/
 structure Mode where
   satFixed : Bool
   rngFixed : Bool
+  cfg : Cfg := codeCfg
   deriving DecidableEq, Repr, Inhabited
 
 def Mode.sat (m : Mode) : Attrs → Constraints → Bool :=
@@ -323,13 +348,39 @@ def subtractPort (ps : Ranges) (p : Nat) : Option Ranges :=
 abbrev dataBelow : Nat := 8999
 abbrev ctrlBelow : Nat := 29999
 
-/-- Draw the lowest free port above `below`. -/
-def drawPort (below : Nat) : Option Ranges → Draw
+/-- Draw the lowest free port above `below`. With `checked` an empty list makes
+    the function return nil like a missing ports resource does; without, `Min()`
+    indexes the empty list. -/
+def drawPort (checked : Bool) (below : Nat) : Option Ranges → Draw
   | none => .noPorts
   | some ps =>
     match remove (normalize ps) (0, below) with
-    | [] => .panic
+    | [] => if checked then .noPorts else .panic
     | r :: _ => .ok r.1 (subtractPort ps r.1)
+
+/-- `Resource.Validate` for a ranges resource: no inverted range, no range
+    beginning inside an EARLIER-listed one. `Resources.Subtract` silently skips a
+    resource that does not validate. -/
+def validateRanges : Ranges → Bool
+  | [] => true
+  | r :: rs => decide (r.1 ≤ r.2) && rs.all (fun r2 => !(decide (r.1 ≤ r2.1) && decide (r2.1 ≤ r.2))) && validateRanges rs
+
+/-- `Resources.Subtract` of a ports resource holding the ranges `rs` (mesos-go
+    `Value_Ranges.Subtract`: the left side is sorted and squashed if it has more
+    than one range, then every range is `Remove`d; an emptied resource is dropped). -/
+def subtractRanges (ps : Ranges) (rs : Ranges) : Option Ranges :=
+  let a := if 1 < ps.length then normalize ps else ps
+  let a := rs.foldl remove a
+  if a.isEmpty then none else some a
+
+/-- "Claim the static ports": `Sort().Squash()` of the template's ranges taken out
+    of the ports that remain. Nothing happens for a task without static ranges, or
+    if there is no ports resource, or if the ranges do not validate. -/
+def reserveStatic (static : Ranges) : Option Ranges → Option Ranges
+  | none => none
+  | some ps =>
+    let rs := normalize static
+    if rs.isEmpty || !validateRanges rs then some ps else subtractRanges ps rs
 
 structure Task where
   dyn : List Nat          -- one per inbound TCP channel, in channel order
@@ -350,15 +401,15 @@ inductive Dyn where
   deriving Repr
 
 /-- The channel loop: one port ≥ 9000 per TCP channel, subtracted as it is drawn. -/
-def drawDyn : List Bool → Option Ranges → Dyn
+def drawDyn (checked : Bool) : List Bool → Option Ranges → Dyn
   | [], ports => .ok [] ports
-  | false :: rest, ports => drawDyn rest ports
+  | false :: rest, ports => drawDyn checked rest ports
   | true :: rest, ports =>
-    match drawPort dataBelow ports with
+    match drawPort checked dataBelow ports with
     | .noPorts => .noPorts ports
     | .panic => .panic
     | .ok p ports' =>
-      match drawDyn rest ports' with
+      match drawDyn checked rest ports' with
       | .ok ps ports'' => .ok (p :: ps) ports''
       | other => other
 
@@ -373,15 +424,36 @@ def Made.isPanic : Made → Bool
   | .panic => true
   | _ => false
 
-def makeTask (w : Wants) (ports : Option Ranges) : Made :=
-  match drawDyn w.inbound ports with
+/-- The draws of makeTaskForMesosResources: the channel loop, then the control port. -/
+def makeDraws (checked : Bool) (w : Wants) (ports : Option Ranges) : Made :=
+  match drawDyn checked w.inbound ports with
   | .noPorts ports' => .early ports'
   | .panic => .panic
   | .ok ps ports' =>
-    match drawPort ctrlBelow ports' with
+    match drawPort checked ctrlBelow ports' with
     | .noPorts => .late ports'
     | .panic => .panic
     | .ok c ports'' => .ok { dyn := ps, ctrl := c, cpu := w.cpu, mem := w.mem, static := w.static } ports''
+
+/-- makeTaskForMesosResources as far as ports are concerned: (with `staticReserved`)
+    the static ranges are claimed first, then the draws. -/
+def makeTask (k : Cfg) (w : Wants) (ports : Option Ranges) : Made :=
+  makeDraws k.drawChecked w (if k.staticReserved then reserveStatic w.static ports else ports)
+
+/-- `Resources.Subtract` of a scalar resource of `x` quarter units: nothing for
+    `x = 0` (an empty resource is never put into the request), and a resource
+    that reaches zero is dropped from the list. -/
+def subScalar (have_ : Option Nat) (x : Nat) : Option Nat :=
+  if x = 0 then have_ else
+  match have_ with
+  | none => none
+  | some c => if c - x = 0 then none else some (c - x)
+
+/-- What remains of the offer once task `t` has been made and `p` is what is left
+    of the ports: with `scalarsSubtracted`, cpus and mem of the task are gone too. -/
+def afterLaunch (k : Cfg) (rem : Res) (t : Task) (p : Option Ranges) : Res :=
+  if k.scalarsSubtracted then { cpu := subScalar rem.cpu t.cpu, mem := subScalar rem.mem t.mem, ports := p }
+  else { rem with ports := p }
 
 /-! ## one OFFERS round -/
 
@@ -431,7 +503,7 @@ def tryPlace (m : Mode) (o : Offer) (rem : Res) (d : Desc) : Try :=
   | some c =>
     let w := c.wants m
     if !resSatisfy rem w then .skipRes else
-    match makeTask w rem.ports with
+    match makeTask m.cfg w rem.ports with
     | .early p => .early p
     | .late p => .late p
     | .panic => .panic
@@ -462,7 +534,7 @@ def prematchLoop (m : Mode) (o : Offer) : OState → List Desc → OState × Lis
     | .late p => ({ s with rem := { s.rem with ports := p }, used := true }, [])
     | .panic => ({ s with crashed := true }, [])
     | .ok t p =>
-      prematchLoop m o { s with rem := { s.rem with ports := p }, used := true,
+      prematchLoop m o { s with rem := afterLaunch m.cfg s.rem t p, used := true,
                                 launches := s.launches ++ [⟨d, t⟩] } ds
 
 /-- FOR_DESCRIPTORS over the not pre-matched descriptors, LAST one first;
@@ -482,7 +554,7 @@ def stillLoop (m : Mode) (o : Offer) : OState → List Desc → OState × List D
       (s', d :: kept)
     | .panic => ({ s with crashed := true }, d :: ds)
     | .ok t p =>
-      stillLoop m o { s with rem := { s.rem with ports := p }, used := true,
+      stillLoop m o { s with rem := afterLaunch m.cfg s.rem t p, used := true,
                              launches := s.launches ++ [⟨d, t⟩] } ds
 
 /-- The text value of the first `machine_id` attribute, "" if there is none. -/
